@@ -14,7 +14,7 @@ D = decimal.Decimal
 ASSUMPTIONS = [
     'key columns are homogeneous (typed BQL columns); Python raises TypeError on mixed-type keys, the model orders them by type rank',
     'CPython list.sort is stable and reverse=True keeps stability (modelled as reverse-sort-reverse; proved equal to a flipped stable sort)',
-    'unordered input rows of the model are computed by the harness (column projection, -x, count/sum per group), not by the implementation',
+    'the whole statement is executed by the model (row loop / aggregate store, ORDER BY, projection, DISTINCT, LIMIT); the harness only resolves ORDER BY references (position / output name / column) to target positions',
 ]
 
 
@@ -94,7 +94,7 @@ def run_impl(case):
     conn = impl.connection({'t': impl.make_table('t', cols, case['rows'])})
     try:
         curs = conn.execute(statement(case))
-        return values.canon_rows(curs.fetchall())
+        return [0, values.canon_rows(curs.fetchall())]
     except Exception as e:  # noqa: BLE001
         return ['exception', impl.exc_class(e), str(e)[:200]]
 
@@ -144,14 +144,49 @@ def unordered(case):
 
 
 def model_expr(case):
-    rows, spec, vis = unordered(case)
-    return ('post_out (Some ' + clist([cpair(f'{i}%nat', cbool(d)) for i, d in spec]) + ') '
-            + clist([f'{i}%nat' for i in vis]) + ' ' + cbool(case['distinct']) + ' '
-            + copt(case['limit'], cZ) + ' ' + values.rows_to_coq(rows))
+    """The whole statement is executed by the model (Model/Exec.v: row loop or aggregate store, then ORDER BY /
+    projection / DISTINCT / LIMIT); only the resolution of ORDER BY references to target positions is the harness's."""
+    names = [n for n, _ in case['cols']]
+    idx = {n: i for i, n in enumerate(names)}
+    targets, aggs, group = [], [], None
+    if not case['agg']:
+        targets = [f'(ECol {idx[e]}%nat)' for e, _ in case['targets']]
+    else:
+        g = idx[case['gcol']]
+        targets = [f'(ECol {g}%nat)', '(EAgg 0%nat)']
+        aggs = ['{| afun := ACountStar; aarg := EConst VNull |}']
+        for e, a in case['targets'][2:]:
+            c = idx[e[4:-1]]
+            targets.append(f'(EAgg {len(aggs)}%nat)')
+            aggs.append('{| afun := ASum (VInt 0); aarg := ECol %d%%nat |}' % c)
+        group = [0]
+    nvis = len(targets)
+    extra = {}
+    spec = []
+    for k in case['keys']:
+        desc = k[2] == ' DESC'
+        if k[0] == 'pos':
+            spec.append((k[1] - 1, desc))
+        elif k[0] == 'name':
+            spec.append((k[1], desc))
+        else:
+            kind = (k[0], k[1])
+            if kind not in extra:
+                extra[kind] = len(targets)
+                col = f'(ECol {idx[k[1]]}%nat)'
+                targets.append(col if k[0] == 'col' else f'(EUnary UNeg {col})')
+            spec.append((extra[kind], desc))
+    q = ('{| q_where := None; q_targets := ' + clist(targets)
+         + '; q_group := ' + ('None' if group is None else 'Some ' + clist([f'{i}%nat' for i in group]))
+         + '; q_aggs := ' + clist(aggs) + '; q_having := None'
+         + '; q_order := Some ' + clist([cpair(f'{i}%nat', cbool(d)) for i, d in spec])
+         + '; q_vis := ' + clist([f'{i}%nat' for i in range(nvis)])
+         + '; q_distinct := ' + cbool(case['distinct']) + '; q_limit := ' + copt(case['limit'], cZ) + ' |}')
+    return f"exec_out {q} {values.rows_to_coq(case['rows'])}"
 
 
 def model_many(cases, tag='c03'):
-    return core.coq_eval(tag, ['Base.PyValue', 'Model.Order'], [model_expr(c) for c in cases])
+    return core.coq_eval(tag, ['Base.PyValue', 'Base.Decimal', 'Model.Eval', 'Model.Order', 'Model.Exec'], [model_expr(c) for c in cases])
 
 
 def eq_rows(i, m):
@@ -244,7 +279,7 @@ def run(tier, rng):
         hist['agg'] += c['agg']
         for k in c['keys']:
             hist['key_kinds'][k[0]] = hist['key_kinds'].get(k[0], 0) + 1
-        if len(c['rows']) >= 2 and isinstance(i, list) and (not i or i[0] != 'exception'):
+        if len(c['rows']) >= 2 and i[0] == 0:
             nontrivial += 1
     seen = set()
     for c, i, m in zip(cases, impl_out, model_out):
